@@ -114,6 +114,86 @@ Proof. exact body_fixpoint_emitted. Qed.
    (natural order of LocalId), local functions by (Reverse(size), id), types by their (params, results) order, every
    name-section vector by index, function ranges by id, the DWARF tables by start / address.  A changed key or a dropped
    sort changes the regenerated text and breaks this theorem. *)
+(* ---- the MODULE-level fixpoint: emit (parse (emit (parse w))) = emit (parse w) on the abstract section stream, for every stream with the
+   validator's guarantees, unless names are emitted AND synthesised (that case is open; every other section is proved for every
+   configuration).  Ingredients: every emitted stream is canonical (section order, types strictly sorted and distinct, imports first,
+   element tables canonical, one name section; bodies are flattenings of normal forms); on the second trip every renumbering is the identity;
+   hence every section is reproduced literally.  The second trip cannot fail (up to the stated premise on segment offsets).
+   The unrestricted statement is FALSE OF THE MODEL: the witness has an out-of-range local index, which the model's [valid_stream] does not
+   exclude and the model's parser turns into an invented local (the real validator rejects such a body; the fidelity gap of section 0.7) - under
+   synthetic names the invented local gets a name on the second trip. *)
+From WV Require Import Proofs.IndexMaps Proofs.ParseTotal Proofs.ModFix Proofs.ModFix2 Proofs.ModFix9 Proofs.ModFix20.
+From WV Require Proofs.ModFixEx Proofs.ModFix31 Proofs.ModFix3 Proofs.ModFix4 Proofs.ModFix10 Proofs.ModFix14 Proofs.ModFix8.
+Theorem c08_module_fixpoint :
+  forall (cf : config) (ver : str) (w : wmod) (ilen : wins -> N) (s1 : pst) 
+           (e1 : emitted) (s2 : pst) (e2 : emitted),
+         parseM cf ver w = POk s1 ->
+         emitM (ps_m s1) ilen [] = Ok e1 ->
+         parseM cf ver (em_secs e1) = POk s2 ->
+         emitM (ps_m s2) ilen [] = Ok e2 ->
+         valid_stream w -> cf_skip_name cf = true \/ cf_synthetic_names cf = false -> em_secs e2 = em_secs e1.
+Proof. exact module_fixpoint_partial. Qed.
+
+Theorem c08_module_fixpoint_unrestricted_refuted :
+  exists
+           (cf : config) (ver : str) (w : wmod) (ilen : wins -> N) (s1 : pst) (e1 : emitted) 
+         (s2 : pst) (e2 : emitted),
+           valid_stream w /\ two_trips cf ver w ilen s1 e1 s2 e2 /\ em_secs e2 <> em_secs e1.
+Proof. exact ModFixEx.module_fixpoint_refuted_valid_stream. Qed.
+
+Theorem c08_emitted_stream_canonical :
+  forall (cf : config) (ver : str) (w : wmod) (s : pst) (ilen : wins -> N) (e : emitted),
+         parseM cf ver w = POk s -> emitM (ps_m s) ilen [] = Ok e -> canonical (em_secs e).
+Proof. exact emit_canonical. Qed.
+
+Theorem c08_second_trip_renumbering_is_identity :
+  forall (cf : config) (ver : str) (w : wmod) (ilen : wins -> N) (s1 : pst) 
+           (e1 : emitted) (s2 : pst) (e2 : emitted),
+         two_trips cf ver w ilen s1 e1 s2 e2 -> valid_stream w -> forall S : space, rho_id s2 e2 S.
+Proof. exact canonical_identity_maps_valid. Qed.
+
+Theorem c08_module_fixpoint_all_but_names :
+  forall (cf : config) (ver : str) (w : wmod) (ilen : wins -> N) (s1 : pst) 
+           (e1 : emitted) (s2 : pst) (e2 : emitted),
+         two_trips cf ver w ilen s1 e1 s2 e2 ->
+         valid_stream w ->
+         ModFix8.name_payload (em_secs e2) = ModFix8.name_payload (em_secs e1) -> em_secs e2 = em_secs e1.
+Proof. exact module_fixpoint_but_names. Qed.
+
+Theorem c08_second_trip_total :
+  forall (cf : config) (ver : str) (w : wmod) (s1 : pst) (ilen : wins -> N) (e1 : emitted),
+         valid_stream w ->
+         parseM cf ver w = POk s1 ->
+         emitM (ps_m s1) ilen [] = Ok e1 ->
+         ModFix26.offsets_ok (ps_m s1) ->
+         valid_stream (em_secs e1) /\
+         (exists (s2 : pst) (e2 : emitted),
+            parseM cf ver (em_secs e1) = POk s2 /\
+            emitM (ps_m s2) ilen [] = Ok e2 /\
+            (cf_skip_name cf = true \/ cf_synthetic_names cf = false -> em_secs e2 = em_secs e1)).
+Proof. exact ModFix31.module_fixpoint_total_partial. Qed.
+
+Theorem c08_module_fixpoint_nonvacuous :
+  exists (s1 : pst) (e1 : emitted) (s2 : pst) (e2 : emitted),
+           two_trips default_config [49] ModFixEx.wA ModFixEx.il1 s1 e1 s2 e2 /\
+           em_secs e2 = em_secs e1 /\ em_secs e1 <> ModFixEx.wA.
+Proof. exact ModFixEx.module_fixpoint_nonvacuous. Qed.
+
+Theorem c08_fix_types :
+  forall (cf : config) (ver : str) (w : wmod) (ilen : wins -> N) (s1 : pst) 
+           (e1 : emitted) (s2 : pst) (e2 : emitted),
+         two_trips cf ver w ilen s1 e1 s2 e2 ->
+         flat_map Structure2.types_of (em_secs e2) = flat_map Structure2.types_of (em_secs e1).
+Proof. exact ModFix3.fix_types. Qed.
+
+Theorem c08_fix_tables :
+  forall (cf : config) (ver : str) (w : wmod) (ilen : wins -> N) (s1 : pst) 
+           (e1 : emitted) (s2 : pst) (e2 : emitted),
+         two_trips cf ver w ilen s1 e1 s2 e2 ->
+         flat_map Structure.tables_of (em_secs e2) = flat_map Structure.tables_of (em_secs e1).
+Proof. exact ModFix4.fix_tables. Qed.
+
+
 From WV Require Gen.ConfigEmit Proofs.Config.
 (* the order in which Module::emit_wasm calls the section emitters (regenerated on every run) *)
 Theorem c08_emit_wasm_source_pinned : WV.Gen.ConfigEmit.emit_wasm_skeleton = WV.Proofs.Config.expected_emit_wasm_skeleton.
@@ -152,3 +232,12 @@ Print Assumptions c08_operator_fixed_under_identity_renaming.
 Print Assumptions c08_body_fixpoint.
 Print Assumptions c08_emitted_stream_is_parsed_stream.
 Print Assumptions c08_emit_wasm_source_pinned.
+Print Assumptions c08_module_fixpoint.
+Print Assumptions c08_module_fixpoint_unrestricted_refuted.
+Print Assumptions c08_emitted_stream_canonical.
+Print Assumptions c08_second_trip_renumbering_is_identity.
+Print Assumptions c08_module_fixpoint_all_but_names.
+Print Assumptions c08_second_trip_total.
+Print Assumptions c08_module_fixpoint_nonvacuous.
+Print Assumptions c08_fix_types.
+Print Assumptions c08_fix_tables.
